@@ -177,6 +177,7 @@ func cmdCheck(args []string) int {
 			return undecided("contracts: " + err.Error())
 		}
 		genErrs = append(genErrs, c.checkImmutables()...)
+		genErrs = append(genErrs, c.checkEncapsulated()...)
 		for k := range c.immutable {
 			immutNote[k] = true
 		}
